@@ -1,0 +1,111 @@
+//go:build verif
+
+package app
+
+// Add-only hooks for the verification harness of property C16 (/verif). Thin exported wrappers,
+// no change of behaviour. Only compiled with -tags verif.
+
+import (
+	"fmt"
+	"io"
+	"log/slog"
+	"math"
+	"path/filepath"
+	"runtime"
+)
+
+// VerifC16AvailTime calls calcSegmentAvailabilityTime on a synthetic asset with one representation.
+// segs are (start, end) pairs in media ticks; atoMS < 0 means +Inf, otherwise ato = atoMS/1000 s
+// (the value strconv.ParseFloat gives for the decimal string). A run-time panic is returned as text.
+func VerifC16AvailTime(segs [][2]uint64, timescale, loopDurMS, startNr, startTimeS int, atoMS int, nr uint32) (ms int64, panicMsg string) {
+	rep := &RepData{ID: "r", ContentType: "video", MediaTimescale: timescale}
+	for i, s := range segs {
+		rep.Segments = append(rep.Segments, Segment{StartTime: s[0], EndTime: s[1], Nr: uint32(i)})
+	}
+	a := &asset{LoopDurMS: loopDurMS, Reps: map[string]*RepData{"r": rep}, refRep: rep}
+	cfg := NewResponseConfig()
+	cfg.StartNr = Ptr(startNr)
+	cfg.StartTimeS = startTimeS
+	switch {
+	case atoMS < 0:
+		cfg.AvailabilityTimeOffsetS = math.Inf(1)
+	default:
+		cfg.AvailabilityTimeOffsetS = float64(atoMS) / 1000
+	}
+	defer func() {
+		if r := recover(); r != nil {
+			panicMsg = fmt.Sprint(r)
+		}
+	}()
+	ms, err := calcSegmentAvailabilityTime(a, rep, nr, cfg)
+	if err != nil {
+		return 0, "error: " + err.Error()
+	}
+	return ms, ""
+}
+
+// VerifC16Source wraps a cmafSource in chunked mode together with its two channels.
+type VerifC16Source struct {
+	cs          *cmafSource
+	nrBytesCh   chan int
+	writeMoreCh chan struct{}
+}
+
+// VerifC16NewSource creates a chunked cmafSource through newCmafSource. bufSize > 0 replaces the
+// 64 KiB hand-over buffer by one of that size (to reach the multi-round loop of Write with small data).
+func VerifC16NewSource(bufSize int) *VerifC16Source {
+	nrBytesCh := make(chan int)
+	writeMoreCh := make(chan struct{})
+	log := slog.New(slog.NewTextHandler(io.Discard, &slog.HandlerOptions{Level: slog.LevelError + 10}))
+	cs := newCmafSource(nrBytesCh, writeMoreCh, log, "http://verif.invalid/x", "video", "", "", true)
+	if bufSize > 0 {
+		cs.buf = make([]byte, bufSize)
+	}
+	return &VerifC16Source{cs: cs, nrBytesCh: nrBytesCh, writeMoreCh: writeMoreCh}
+}
+
+func (s *VerifC16Source) Write(b []byte) (int, error) { return s.cs.Write(b) }
+func (s *VerifC16Source) Read(p []byte) (int, error)  { return s.cs.Read(p) }
+func (s *VerifC16Source) BufLen() int                 { return len(s.cs.buf) }
+
+// NrBytesCh and WriteMoreCh give the harness the two rendezvous channels, so that it can play the
+// first line of startReadAndSendChunked and the tail of sendMediaSegment.
+func (s *VerifC16Source) NrBytesCh() chan int        { return s.nrBytesCh }
+func (s *VerifC16Source) WriteMoreCh() chan struct{} { return s.writeMoreCh }
+
+// VerifC16IngesterState returns the state (0 not started, 1 running, 2 stopped) and the report of
+// an ingest session, (-1, nil) if unknown. Unsynchronised read, as in the info handler.
+func VerifC16IngesterState(s *Server, id uint64) (state int, report []string) {
+	ing, ok := s.cmafMgr.ingesters[id]
+	if !ok {
+		return -1, nil
+	}
+	return int(ing.state), append([]string(nil), ing.report...)
+}
+
+// VerifC16SessionInfo returns what NewCmafIngester computed for a session: nrSegsToSend (-1 if nil),
+// useChunked, the representation ids in sending order with content type and extension, the asset's
+// SegmentDurMS and LoopDurMS and the id of the reference representation.
+func VerifC16SessionInfo(s *Server, id uint64) (nrSegsToSend int, hasNr bool, useChunked bool, reps [][3]string, segDurMS, loopDurMS int, refRep string, ok bool) {
+	ing, found := s.cmafMgr.ingesters[id]
+	if !found {
+		return 0, false, false, nil, 0, 0, "", false
+	}
+	if ing.nrSegsToSend != nil {
+		nrSegsToSend, hasNr = *ing.nrSegsToSend, true
+	}
+	for _, rd := range ing.repsData {
+		reps = append(reps, [3]string{rd.repID, rd.contentType, rd.extension})
+	}
+	return nrSegsToSend, hasNr, ing.useChunked, reps, ing.asset.SegmentDurMS, ing.asset.LoopDurMS, ing.asset.refRep.ID, true
+}
+
+// VerifC16SourceDir returns the directory of this package's sources in the tree the harness was
+// built from (the harness reads livesegment.go there to see how calcSegmentAvailabilityTime rounds).
+func VerifC16SourceDir() string {
+	_, file, _, ok := runtime.Caller(0)
+	if !ok {
+		return ""
+	}
+	return filepath.Dir(file)
+}
